@@ -168,6 +168,47 @@ def addrange_rule(rep):
            "src/xercesc/util/regx/RangeToken.cpp:%s" % (sorted(set(bad))[0] if bad else cfg.line_of(cfg.entry) or 0))
 
 
+def boundary_rule(rep):
+    from ..engines import guard
+    rep.rule("C11.h", "a match attempt starts on a character boundary: Context::nextCh(ch, offset) advances its in/out offset onto the "
+             "low surrogate when it decodes a surrogate pair; in RegularExpression::matches every start offset handed to "
+             "match(context, operations, start) is a variable that has not been through nextCh since it was last assigned (CFG "
+             "must-dataflow: the fact 'clean' is generated by an assignment or increment of the variable, killed by passing it to "
+             "nextCh) — otherwise a match that begins with a supplementary-plane character is attempted from the middle of the pair "
+             "and missed")
+    tu = os.path.join(core.REPO, "src/xercesc/util/regx/RegularExpression.cpp")
+    g = core.run_xa([tu], cfg=r"^RegularExpression::matches$", flat=False)
+    n = 0
+    for raw in g.cfgs.get("RegularExpression::matches", []):
+        cfg = guard.Cfg(raw)
+        calls = guard.sites(cfg, lambda x: x[0] == "c" and x[1] == "RegularExpression::match" and len(x[3]) >= 3 and x[3][2][0] == "l")
+        for bid, i, el in calls:
+            L = el["x"][3][2]
+
+            def touches(e, L=L):
+                for x in guard.el_top_calls(e):
+                    if x[0] == "c" and x[1].endswith("Context::nextCh") and len(x[3]) >= 2 and x[3][1] == L:
+                        return True
+                return False
+
+            def assigns(e, L=L):
+                x = e.get("x")
+                if x and x[0] == "b" and x[1] in ("=", "+=", "-=") and x[2] == L:
+                    return True
+                if x and x[0] == "u" and x[1][:2] in ("++", "--") and x[2] == L:
+                    return True
+                return any(d[0] == L[1] for d in e.get("decl", []))
+            st = guard.must_state(cfg, gen_el=assigns, kill_el=touches)
+            ok = st(bid, i)
+            n += 1
+            rep.ob("C11.h", "matches%s@match:%s" % (raw.get("sig", "")[:24], L[1]), ok,
+                   "start offset %s has not been advanced by nextCh" % L[1] if ok else
+                   "RegularExpression::matches (line %s): match() is started at %s after nextCh(ch, %s) may have moved it onto the low "
+                   "surrogate of a pair — a match beginning with a supplementary-plane character is missed" % (el.get("l"), L[1], L[1]),
+                   "src/xercesc/util/regx/RegularExpression.cpp:%s" % el.get("l", 0))
+    rep.floor("C11.h", n, 3)
+
+
 def run(rep):
     f = core.library_facts()
     rep.units.update(os.path.relpath(t, core.REPO) for t in f.tus)
@@ -175,6 +216,7 @@ def run(rep):
     shift_table_rule(rep)
     region_rule(rep, f)
     addrange_rule(rep)
+    boundary_rule(rep)
     rep.rule("C11.d", "pure matching: RegularExpression::matches/tokenize/replace and every RegularExpression member they reach assign no "
              "member of the compiled expression — the answer cannot depend on earlier uses of the same compiled expression")
     C17.pure_match_rule(rep, f, "C11.d")
